@@ -1,4 +1,5 @@
 import DigModel.Proofs.Retry
+import DigModel.Proofs.History
 set_option linter.unusedSimpArgs false
 /-
   C02 — Singletons: a successful constructor or decorator never runs twice.
@@ -14,11 +15,15 @@ set_option linter.unusedSimpArgs false
   * `C02_built_stays_built`: the built marks only grow, and the on-stack marks are exactly restored;
   * `C02_cached`, `C02_noreentry`: a built constructor is a no-op; a constructor demanded while its own
     arguments are being built is not entered — it yields a cycle error (repair of F8/F9).
-  Together with the fact that only the resolver executes user functions (C03_passive) this gives:
-  per node at most one successful execution between any two points of a history at which the node is
-  not marked built and not on the stack — the lift to whole histories (an invariant of `step`) is
-  stated in DESIGN.md as the next proof step.  "Identical instance" is token equality and follows from
-  there being one successful execution.
+  * `C02_once_history` (whole histories, full strength): for every program — every configuration, type
+    universe, set of functions, behaviour script and every finite sequence of Scope / Provide / Decorate /
+    Invoke / Visualize / String operations, accepted or rejected, failing or not — every constructor
+    node and every decorator node has at most ONE successful execution in the entire history; a node that
+    has one is marked built (so by C02_cached it is never entered again), and between two operations no
+    node is left on the stack.  It is the invariant `HInv` of the API step function (`HInv.step`), proved
+    through the undo of rejected Provides (Rollback), the parse frame (Parse) and the flag discipline of the
+    resolver (Flags).  "Identical instance" is token equality: with one successful execution per node
+    there is one token per result slot.
 -/
 namespace Dig.C02
 
@@ -56,11 +61,28 @@ theorem C02_deco_cached (ctx : Ctx) (fuel d s : Nat) (st : St) (h : (st.deco d).
     callDeco ctx (fuel + 1) d s st = (.ok (), st) := by
   simp [callDeco, h]
 
+theorem C02_once_history (p : Program) :
+    (∀ n, okExits (.ctor n) (runProgram p).1.hist ≤ 1 ∧
+          (okExits (.ctor n) (runProgram p).1.hist = 1 → ((runProgram p).1.ctor n).called = true) ∧
+          ((runProgram p).1.ctor n).onStack = false) ∧
+    (∀ d, okExits (.deco d) (runProgram p).1.hist ≤ 1 ∧
+          (okExits (.deco d) (runProgram p).1.hist = 1 → ((runProgram p).1.deco d).state = .called) ∧
+          ((runProgram p).1.deco d).state ≠ .onStack) := by
+  have h := HInv.runOps p.ctx p.fns p.ops 0 {} [] HInv.init
+  exact ⟨fun n => ⟨(h.ctorOnce n).1, (h.ctorOnce n).2, h.ctorIdle n⟩,
+         fun d => ⟨(h.decoOnce d).1, (h.decoOnce d).2, h.decoIdle d⟩⟩
+
+/-- the same for every intermediate state: the invariant is preserved by each operation -/
+theorem C02_step_invariant (ctx : Ctx) (fns : List Fn) (st : St) (i : Nat) (op : Op) (h : HInv st) :
+    HInv (step ctx fns st i op).1 := h.step ctx fns i op
+
 /-- non-vacuity (test): the empty container satisfies the hypothesis -/
 example : VL 0 0 ({} : St) := ⟨⟨fun s k n h => by simp [St.scope, agetL, aget] at h; cases s <;> simp [agetL, aget] at h,
   fun s k d h => by cases s <;> simp [St.scope, aget] at h⟩, rfl, rfl⟩
 
 #print axioms C02_once
+#print axioms C02_once_history
+#print axioms C02_step_invariant
 #print axioms C02_built_stays_built
 #print axioms C02_cached
 #print axioms C02_noreentry
